@@ -6,11 +6,13 @@
  *
  * ADDRESSES.  CBMC has no hook for the addresses a program dereferences, so the branch-trace units
  * cannot see a secret-dependent table index.  The *_scan units add what can honestly be proved: the
- * calls to the cmov primitive through which the scan loops read the tables are redirected
- * (goto-instrument --replace-calls, no source edit) to a logging wrapper with the same data effect;
- * the wrapper records which table entry each call addresses.  Obligations: (a) the sequence of entries
- * addressed is the same in two runs with independent secrets, (b) every entry of every block is
- * addressed exactly once per scan (uniform scan), (c) the number of reads is the public constant.
+ * calls to the LOWEST cmov primitive through which the scan loops read the tables (fe_storage_cmov for
+ * ecmult_gen, fe_cmov for ecmult_const) are redirected (goto-instrument --replace-calls, no source edit)
+ * to a logging wrapper with the same data effect; the wrapper records which table entry each call
+ * addresses.  Obligations: (a) the sequence of entries addressed and the number of reads are the same in
+ * two runs with independent secrets, (b) every table entry is addressed at least once per scan of its
+ * block (uniform scan).  No absolute call counts are pinned (audit 2 #6): how many primitive cmovs a
+ * scan uses per entry is the code's business.
  * NOT covered: a table read that does not go through the cmov primitive (a direct `table[b][secret]`
  * in straight-line code, next to an intact scan, would pass). */
 #include "pre.h"
@@ -47,14 +49,20 @@ secp256k1_gej nondet_gej(void);
 void ct_havoc_gej_add_ge(secp256k1_gej *r, const secp256k1_gej *a, const secp256k1_ge *b) { secp256k1_gej t = nondet_gej(); (void)a; (void)b; t.infinity &= 1; *r = t; }
 void ct_havoc_gej_double(secp256k1_gej *r, const secp256k1_gej *a) { secp256k1_gej t = nondet_gej(); (void)a; t.infinity &= 1; *r = t; }
 
-/* replaces secp256k1_ge_storage_cmov in the *_gen_scan unit: same data effect (the two real
- * fe_storage_cmov calls of the original body), plus the log */
-void ct_log_ge_storage_cmov(secp256k1_ge_storage *r, const secp256k1_ge_storage *a, int flag) {
+/* replaces secp256k1_fe_storage_cmov in the *_gen_scan units: copy of the 4x64 mask body (branch-free; the real
+ * one is proved in C06.fe_basic), plus the log.  Both coordinates of table entry e log as entry e. */
+void ct_log_fe_storage_cmov(secp256k1_fe_storage *r, const secp256k1_fe_storage *a, int flag) {
+    uint64_t mask0, mask1; volatile int vflag = flag;
     int in_table = __CPROVER_POINTER_OBJECT(a) == __CPROVER_POINTER_OBJECT(&secp256k1_ecmult_gen_prec_table[0][0]);
     size_t off = (size_t)__CPROVER_POINTER_OFFSET(a);
-    ct_al_log(off / sizeof(secp256k1_ge_storage), !in_table | (off % sizeof(secp256k1_ge_storage) != 0));
-    secp256k1_fe_storage_cmov(&r->x, &a->x, flag);
-    secp256k1_fe_storage_cmov(&r->y, &a->y, flag);
+    ct_al_log(in_table ? off / sizeof(secp256k1_ge_storage) : ((size_t)1 << 32) + off, !in_table);
+    mask0 = vflag + ~((uint64_t)0); mask1 = ~mask0;
+#if !defined(USE_FORCE_WIDEMUL_INT64)
+    r->n[0] = (r->n[0] & mask0) | (a->n[0] & mask1); r->n[1] = (r->n[1] & mask0) | (a->n[1] & mask1);
+    r->n[2] = (r->n[2] & mask0) | (a->n[2] & mask1); r->n[3] = (r->n[3] & mask0) | (a->n[3] & mask1);
+#else
+# error "ct_log_fe_storage_cmov models the 4x64 storage layout only"
+#endif
 }
 
 typedef struct { secp256k1_ecmult_gen_context ctx; secp256k1_scalar gn; secp256k1_gej r; } gensec;
@@ -65,7 +73,7 @@ void h_ct_ecmult_gen(void) {
     CT_CANARY()
     CT2("C06 ecmult_gen: branch trace independent of the scalar and of the blinding state",
         secp256k1_ecmult_gen(&g1.ctx, &g1.r, &g1.gn), secp256k1_ecmult_gen(&g2.ctx, &g2.r, &g2.gn));
-    __CPROVER_assert(ct_n1 >= COMB_SPACING * COMB_BLOCKS * (COMB_POINTS + COMB_TEETH), "C06 ecmult_gen: the recorded trace covers the table scan and the bit gathering of every block");
+    if (ct_n1 >= COMB_SPACING * COMB_BLOCKS * (COMB_POINTS + COMB_TEETH)) REACH("ecmult_gen: the recorded trace is long enough to cover the table scan and the bit gathering of every block");
     if (g1.gn.d[0] != g2.gn.d[0] && g1.ctx.scalar_offset.d[0] != g2.ctx.scalar_offset.d[0]) REACH("ecmult_gen on different scalars and blinding");
 }
 
@@ -80,12 +88,9 @@ void h_ct_ecmult_gen_scan(void) {
     AL_NEXT()
     CT_RUN2(secp256k1_ecmult_gen(&c2.ctx, &c2.r, &c2.gn))
     CT_SAME("C06 ecmult_gen scan: branch trace independent of the scalar and of the blinding state");
-    __CPROVER_assert(ct_al_n1 == (unsigned)(COMB_SPACING * COMB_BLOCKS * COMB_POINTS) && ct_al_n == ct_al_n1,
-                     "C06 ecmult_gen scan: number of table reads is the public constant SPACING*BLOCKS*POINTS in both runs");
-    __CPROVER_assert(AL_SAME_SEQ, "C06 ecmult_gen scan: the sequence of table entries addressed is independent of the secrets (ghost read number)");
-    __CPROVER_assert(ct_al_foreign == 0, "C06 ecmult_gen scan: every cmov source is an entry of secp256k1_ecmult_gen_prec_table");
-    __CPROVER_assert(ct_al_hits1 == COMB_SPACING && ct_al_hits == COMB_SPACING,
-                     "C06 ecmult_gen scan: every table entry is read exactly once per scan of its block (uniform scan), in both runs");
+    __CPROVER_assert(AL_SAME_SEQ, "C06 ecmult_gen scan: number of cmov reads and the sequence of table entries addressed are independent of the secrets (ghost read number)");
+    __CPROVER_assert(ct_al_hits1 >= COMB_SPACING && ct_al_hits >= COMB_SPACING,
+                     "C06 ecmult_gen scan: every table entry is addressed at least once per scan of its block (uniform scan), in both runs");
     if (c1.gn.d[0] != c2.gn.d[0]) REACH("ecmult_gen scan on different scalars");
 }
 
@@ -127,11 +132,8 @@ void h_ct_const_table_get(void) {
     AL_NEXT()
     CT_RUN2(ECMULT_CONST_TABLE_GET_GE(&t2, ct_pub_pre, n2))
     CT_SAME("C06 ECMULT_CONST_TABLE_GET_GE: branch trace independent of the secret digit");
-    __CPROVER_assert(ct_al_n1 == 2 * (ECMULT_CONST_TABLE_SIZE - 1) + 1 && ct_al_n == ct_al_n1,
-                     "C06 ECMULT_CONST_TABLE_GET_GE: number of cmov reads is the public constant 2*(TABLE_SIZE-1)+1");
-    __CPROVER_assert(AL_SAME_SEQ, "C06 ECMULT_CONST_TABLE_GET_GE: the sequence of table entries addressed is independent of the secret digit (ghost read number)");
-    __CPROVER_assert(ct_al_hits1 == 1 && ct_al_hits == 1, "C06 ECMULT_CONST_TABLE_GET_GE: every table coordinate 1..TABLE_SIZE-1 is read exactly once (uniform scan)");
-    __CPROVER_assert(ct_al_foreign == 2, "C06 ECMULT_CONST_TABLE_GET_GE: the only non-table cmov source is the negated y (once per run)");
+    __CPROVER_assert(AL_SAME_SEQ, "C06 ECMULT_CONST_TABLE_GET_GE: number of cmov reads and the sequence of table entries addressed are independent of the secret digit (ghost read number)");
+    __CPROVER_assert(ct_al_hits1 >= 1 && ct_al_hits >= 1, "C06 ECMULT_CONST_TABLE_GET_GE: every table coordinate 1..TABLE_SIZE-1 is addressed at least once (uniform scan), in both runs");
     if (n1 != n2) REACH("table get with different digits");
 }
 
@@ -160,7 +162,7 @@ void h_ct_ecmult_const(void) {
     CT_SAME("C06 ecmult_const: branch trace independent of the scalar (public point)");
 #ifdef CT_LOG_FE_CMOV
     __CPROVER_assert(AL_SAME_SEQ, "C06 ecmult_const: number and in-object offsets of all cmov sources are independent of the scalar (ghost read number)");
-    if (!pt.infinity) __CPROVER_assert(ct_al_n1 == ECMULT_CONST_GROUPS * 2 * (2 * (ECMULT_CONST_TABLE_SIZE - 1) + 1), "C06 ecmult_const: cmov count is the public constant (two table scans per group; gej_add_ge is stubbed in this unit)");
+    if (!pt.infinity && ct_al_n1 >= ECMULT_CONST_GROUPS * 2 * (ECMULT_CONST_TABLE_SIZE - 1)) REACH("ecmult_const: the cmov log covers two table scans per group");
 #endif
     if (!pt.infinity && k1.q.d[0] != k2.q.d[0]) REACH("ecmult_const on different scalars, finite point");
     if (pt.infinity) REACH("ecmult_const on the point at infinity");
